@@ -311,17 +311,17 @@ const smtPrelude = `(set-option :produce-models true)
 (define-fun nilp () Ptr (mkp 0 0))
 (define-fun nil-slice () Slice (mk-slice nilp 0 0))
 (declare-fun padd (Ptr Int) Ptr)
-(assert (forall ((p Ptr) (i Int)) (! (= (padd p i) (mkp (p.base p) (+ (p.idx p) i))) :pattern ((padd p i)))))
-(declare-fun str.len (Str) Int)
-(declare-fun str.cat (Str Str) Str)
-(declare-fun str.at (Str Int) Int)
-(declare-fun str.sub (Str Int Int) Str)
-(declare-fun str.lt (Str Str) Bool)
-(declare-const str.empty Str)
-(assert (= (str.len str.empty) 0))
-(assert (forall ((s Str)) (! (>= (str.len s) 0) :pattern ((str.len s)))))
-(assert (forall ((s Str)) (! (=> (= (str.len s) 0) (= s str.empty)) :pattern ((str.len s)))))
-(assert (forall ((a Str) (b Str)) (! (= (str.len (str.cat a b)) (+ (str.len a) (str.len b))) :pattern ((str.cat a b)))))
+(assert (forall ((p Ptr) (i Int)) (! (and (= (p.base (padd p i)) (p.base p)) (= (p.idx (padd p i)) (+ (p.idx p) i))) :pattern ((padd p i)))))
+(declare-fun s.len (Str) Int)
+(declare-fun s.cat (Str Str) Str)
+(declare-fun s.at (Str Int) Int)
+(declare-fun s.sub (Str Int Int) Str)
+(declare-fun s.lt (Str Str) Bool)
+(declare-const s.empty Str)
+(assert (= (s.len s.empty) 0))
+(assert (forall ((s Str)) (! (>= (s.len s) 0) :pattern ((s.len s)))))
+(assert (forall ((s Str)) (! (=> (= (s.len s) 0) (= s s.empty)) :pattern ((s.len s)))))
+(assert (forall ((a Str) (b Str)) (! (= (s.len (s.cat a b)) (+ (s.len a) (s.len b))) :pattern ((s.cat a b)))))
 (declare-const iface.nil Iface)
 (declare-fun iface.tag (Iface) Int)
 (assert (= (iface.tag iface.nil) 0))
